@@ -327,6 +327,10 @@ def run(tier, seed, factor=1):
                 res.fail(sig, {"table_seed": o["seed"]}, detail)
     rnd = random.Random(seed * 1000003 + 14)
     cfgs = speccheck.make_configs(rnd, common.scale(tier, 120, 1500) * factor)
+    for _ in range(max(16, len(cfgs) // 10)):  # a unary strategy whose is_reversible and is_two_way disagree
+        c = specrun.rand_config(rnd, "rot")
+        c.update(rot="rev", alpha=rnd.choice(["ab", "abc"]), symmetry=False)
+        cfgs.append(c)
     for c in cfgs:
         c["iterative"] = c["iterative"] and c["db"] != "RuleDBForest"
     wouts = specrun.pool_map(word_worker, cfgs)
